@@ -45,7 +45,7 @@ func alphabet(c hn.GateCfg) []string {
 		}
 		a = append(a, "nongate", "evx a")
 	}
-	return append(a, "tick", "expire", "flushall", "close")
+	return append(a, "tick", "half", "expire", "flushall", "close")
 }
 
 var harness = &seqmc.Harness{
@@ -159,11 +159,11 @@ func main() {
 	})
 }
 
-const seqRule = "BFS over all histories up to the depth bound of {event(id), flush event, event with an already cancelled context, clock +1ms, clock +Expiration+1ms, FlushAll, Close} on the real gated.Filter with 3 ids (full alphabet) and 5 ids (0..5 groups open at once), Broker set / nil, and with the Broker or the composition failing at its k-th call (a part-way failure followed by a retry). After every successful Process at virtual time T a probe on a replayed copy must find no group whose expiry lies before T, the expired groups must have reached the Sender oldest first (or been dropped with no Broker); after a successful FlushAll / Close the probe must find nothing and every previously held group must have been emitted exactly once."
+const seqRule = "BFS over all histories up to the depth bound of {event(id), flush event, event with an already cancelled context, clock +1ms, clock +0.6 x Expiration, clock +Expiration+1ms, FlushAll, Close} on the real gated.Filter with 3 ids (full alphabet) and 5 ids (0..5 groups open at once), Broker set / nil, and with the Broker or the composition failing at its k-th call (a part-way failure followed by a retry). After every successful Process at virtual time T a probe on a replayed copy must find no group whose expiry lies before T, the expired groups must have reached the Sender oldest first (or been dropped with no Broker); after a successful FlushAll / Close the probe must find nothing and every previously held group must have been emitted exactly once."
 
 func unusedMain() {
 	hk.Main(seqmc.Check(harness,
-		"BFS over all histories up to the depth bound of {event(id), flush event, clock +1ms, clock +Expiration+1ms, FlushAll, Close} on the real gated.Filter with 3 ids (full alphabet) and 5 ids (0..5 groups open at once), Broker set / nil, and with the Broker or the composition failing at its k-th call (a part-way failure followed by a retry). After every successful Process at virtual time T a probe on a replayed copy must find no group whose expiry lies before T, the expired groups must have reached the Sender oldest first (or been dropped with no Broker); after a successful FlushAll / Close the probe must find nothing and every previously held group must have been emitted exactly once.",
+		"BFS over all histories up to the depth bound of {event(id), flush event, clock +1ms, clock +0.6 x Expiration, clock +Expiration+1ms, FlushAll, Close} on the real gated.Filter with 3 ids (full alphabet) and 5 ids (0..5 groups open at once), Broker set / nil, and with the Broker or the composition failing at its k-th call (a part-way failure followed by a retry). After every successful Process at virtual time T a probe on a replayed copy must find no group whose expiry lies before T, the expired groups must have reached the Sender oldest first (or been dropped with no Broker); after a successful FlushAll / Close the probe must find nothing and every previously held group must have been emitted exactly once.",
 		[]string{"the clock is the filter's NowFunc, owned by the harness", "depth 6 (quick) / 8 (thorough)"},
 		300*time.Second, 45*time.Minute))
 }
